@@ -1212,5 +1212,5 @@ func anyConnMutates(s *GraphScript) bool {
 
 func TestGraph(t *testing.T) {
 	defer flushOpReach(cGraph)
-	vt.Run(t, cGraph, vt.N(8000, 400000), genGraph, runGraph)
+	vt.Run(t, cGraph, vt.N(6000, 240000), genGraph, runGraph)
 }
